@@ -9,7 +9,7 @@ from .. import ewit
 LEVEL = 'other'
 UNITS = ['src/transform/SmartRotation3D.cpp', 'verif:inst_math.cpp']
 ENGINES = 'E-WIT + E-ALG + E-SIB + E-INT over romea-facts'
-TECHNIQUE = 'point overloads of the coordinate transforms on witness points incl. exactly-zero components (homogeneous ones instantiated through calls), folds of value + constant with the sign of fmod taken from the shifted range, forwarding of the angles by every constructor and init overload, user-written copy assignment (sweep H3), scalar overloads of the coordinate transforms judged by their parameter names on witness points, non-template normaliser overloads, planar angle read per path with exact half turns, SmartRotation3D judged by what R() and operator*() return on the state each path of init() leaves (first access), rotation-matrix builder read path by path on small-angle witnesses, AngleAxis / Quaternion read as (w, x, y, z) values with Hamilton products on witness angles of every path, value rules for polar and spherical conversions incl. the homogeneous overload, Eigen eulerAngles range fact, sweep of every function read (and its in-repo callees) for frozen function-local statics, single precision inside double computations, lossy copy constructors, presence- or argument-keyed member caches, reference members bound to constructor arguments, loop accumulators that are members, members derived in the constructor and not refreshed by setters, results returned by reference to a member buffer, members filled from an argument under a condition that ignores it, hidden non-virtual base members, self-bound reference members, reductions that accumulate in float; constructors judged by the value of R_ (entries from uninitialised storage), multi-path toSpherical on witness norms; multi-path Euler extraction on boundary witness angles, closed-form quaternion extraction on unit and non-unit witness quaternions; compile-time instantiation witnesses (clang -fsyntax-only); exact algebra on the extracted rotation/coordinate formulas; range typing of the angle normalisers'
+TECHNIQUE = 'toHomogeneous of polar and spherical points evaluated against the Cartesian point, builders evaluated on the wrapped pitch representative the extraction returns, point overloads of the coordinate transforms on witness points incl. exactly-zero components (homogeneous ones instantiated through calls), folds of value + constant with the sign of fmod taken from the shifted range, forwarding of the angles by every constructor and init overload, user-written copy assignment (sweep H3), scalar overloads of the coordinate transforms judged by their parameter names on witness points, non-template normaliser overloads, planar angle read per path with exact half turns, SmartRotation3D judged by what R() and operator*() return on the state each path of init() leaves (first access), rotation-matrix builder read path by path on small-angle witnesses, AngleAxis / Quaternion read as (w, x, y, z) values with Hamilton products on witness angles of every path, value rules for polar and spherical conversions incl. the homogeneous overload, Eigen eulerAngles range fact, sweep of every function read (and its in-repo callees) for frozen function-local statics, single precision inside double computations, lossy copy constructors, presence- or argument-keyed member caches, reference members bound to constructor arguments, loop accumulators that are members, members derived in the constructor and not refreshed by setters, results returned by reference to a member buffer, members filled from an argument under a condition that ignores it, hidden non-virtual base members, self-bound reference members, reductions that accumulate in float; constructors judged by the value of R_ (entries from uninitialised storage), multi-path toSpherical on witness norms; multi-path Euler extraction on boundary witness angles, closed-form quaternion extraction on unit and non-unit witness quaternions; compile-time instantiation witnesses (clang -fsyntax-only); exact algebra on the extracted rotation/coordinate formulas; range typing of the angle normalisers'
 EXPLANATION = ('Every parametrisation API is instantiated for float and double in one witness unit; rotation builders, the Euler extraction, the normalisers and the '
                'polar/spherical maps are read as formulas and checked by exact algebra / range typing (C10_alg).')
 ASSUMPTIONS = ['exact real arithmetic for the algebraic identities; |pitch| < pi/2; point norm > 0']
